@@ -6,7 +6,8 @@
 
 static char SYM[8] = { 'a', 'b', ' ', ',', '"', '\'', '\\', '\t' };        /* --hb=N replaces the second letter by the byte N (0xA0, 0x89: bytes that toascii() turns into blanks) */
 #define NSYM 8
-static const char *DELIMS[3] = { NULL, ",", ", " };
+static const char *DELIMS[5] = { NULL, ",", ", ", ";:|/+=&%#@!~^*?,", ";:|/+=&%#@!~^*?\t" };      /* the last two: 16 delimiters, equal but for the last one */
+#define NDELIMS 5
 static int g_len;
 
 #define MAXTOK 24
@@ -57,7 +58,7 @@ static const char *shape_of(const char *s)
 static void desc(uint64_t idx, void *ctx, char *b, size_t n)
 {
     char s[32], e[100]; (void) ctx; word(idx, s); mc_esc(s, strlen(s), e, sizeof e);
-    snprintf(b, n, "split/tok with delimiters {whitespace | \",\" | \", \"} and num_words/get_word/get_pword on \"%s\"", e);
+    snprintf(b, n, "split/tok with delimiters {whitespace | \",\" | \", \" | two 16-character sets} and num_words/get_word/get_pword on \"%s\"", e);
 }
 
 /* reference word grammar: whitespace-separated; a word that opens with a quote runs to the matching quote;
@@ -82,11 +83,12 @@ static void ref_words(const char *s, words_t *out)
 
 static void case_fn(uint64_t idx, void *ctx)
 {
+    mc_strings_prelude();
     char raw[32]; (void) ctx; word(idx, raw);
     const char *shape = shape_of(raw); char e[100], e2[100];
     mc_set_shape(shape);
     mc_esc(raw, strlen(raw), e, sizeof e);
-    for (int di = 0; di < 3; di++) {
+    for (int di = 0; di < NDELIMS; di++) {
         const char *d = DELIMS[di];
         toks_t ref; ref_split(d, raw, &ref);
         char *s = mc_heapstr(raw);                                   /* exact-size block: one byte past the terminator is a redzone */
@@ -103,6 +105,15 @@ static void case_fn(uint64_t idx, void *ctx)
         /* ---- tok: same list modulo trimming, stable under re-eval */
         spif_tok_t t = spif_tok_new_from_ptr((spif_charptr_t) s);
         if (d) { spif_str_t sep = spif_str_new_from_ptr((spif_charptr_t) hd); spif_tok_set_sep(t, sep); }
+        /* a copy made before the first evaluation tokenizes like its original */
+        { spif_tok_t t2 = spif_tok_dup(t);
+          if (!t2) FAIL("spif_tok_dup", "model:return", shape, "dup returned NULL");
+          else { if (!spif_tok_eval(t2)) FAIL("spif_tok_eval", "model:return", shape, "eval of a copy returned FALSE");
+              else { spif_list_t tl = spif_tok_get_tokens(t2); int tn = tl ? (int) SPIF_LIST_COUNT(tl) : 0;
+                  if (tn != ref.n) FAIL("spif_tok_dup", "model:token-count", shape, "a copy made before eval gives %d tokens, the grammar %d (delimiters %s)", tn, ref.n, d ? d : "whitespace");
+                  else for (int i = 0; i < tn; i++) { spif_str_t ts = SPIF_STR(SPIF_LIST_GET(tl, i)); char r[24]; strcpy(r, ref.t[i]); trim(r); const char *tt = (ts && ts->s) ? (char *) ts->s : "";
+                      if (strcmp(tt, r)) { FAIL("spif_tok_dup", "model:token", shape, "token %d of a copy made before eval differs (delimiters %s)", i, d ? d : "whitespace"); break; } } }
+              spif_tok_del(t2); } }
         for (int round = 0; round < 2; round++) {
             if (!spif_tok_eval(t)) { FAIL("spif_tok_eval", "model:return", shape, "eval returned FALSE"); break; }
             spif_list_t tl = spif_tok_get_tokens(t);
@@ -162,6 +173,7 @@ static void rt_desc(uint64_t idx, void *ctx, char *b, size_t n)
 }
 static void rt_case(uint64_t idx, void *ctx)
 {
+    mc_strings_prelude();
     (void) ctx; int di = (int) (idx % 3); idx /= 3; int cnt = (int) (idx % 4) + 1; idx /= 4;
     char *list[6]; const char *sep = DELIMS[di] ? DELIMS[di] : " ";
     for (int i = 0; i < cnt; i++) { list[i] = mc_heapstr(PT[idx % 6]); idx /= 6; }
@@ -190,7 +202,7 @@ int main(int argc, char **argv)
     if (N > 10) N = 10;
     int hb = (int) mc_arg_int("hb", 'b');
     SYM[1] = (char) hb;
-    mc_info("alphabet", "all strings of length <= %d over {a,b (or the byte given with --hb),space,',','\"','\\'','\\\\',tab} x delimiter sets {whitespace, \",\", \", \"}; word indices 0..num_words+2; join/split round trips of <= 4 plain tokens", N);
+    mc_info("alphabet", "all strings of length <= %d over {a,b (or the byte given with --hb),space,',','\"','\\'','\\\\',tab} x delimiter sets {whitespace, \",\", \", \", and two sets of 16 characters that differ in the last one (comma / tab)}; word indices 0..num_words+2; join/split round trips of <= 4 plain tokens", N);
     mc_e2_level("roundtrip", 4, 3 * 4 * 6 * 6 * 6 * 6, rt_case, rt_desc, NULL);
     for (g_len = 0; g_len <= N; g_len++)
         if (!mc_e2_level("tokens", g_len, mc_words_of_len(NSYM, g_len), case_fn, desc, NULL)) break;
